@@ -197,6 +197,14 @@ def gen_dag(rng, cyclic=False, with_pull=True, shared_pull=False, late_start=Tru
                 comps[k]["inputs"].append({"src": [j, so], "chain": [["fixed", d]] + ([["pass"]] if rng.random() < 0.3 else [])})
                 chain = [a for a in chain if a[0] == "pass"]
             comps[k]["inputs"].append({"src": [j, so], "chain": chain})
+    # static outputs of time components (a model publishing a parameter next to its state), read by ordinary inputs
+    for k in range(n):
+        if kinds[k] == "T" and rng.random() < 0.25:
+            comps[k]["nstatic"] = 1
+            readers_k = [j for j in range(n) if j != k and kinds[j] == "T"]
+            for j in rng.sample(readers_k, min(len(readers_k), rng.choice([1, 1, 2]))):
+                comps[j]["inputs"].insert(rng.randrange(len(comps[j]["inputs"]) + 1),
+                                          {"src": [k, comps[k]["nout"]], "chain": [["pass"]] if rng.random() < 0.3 else []})
     # some outputs of time components fan out behind ONE shared pass-through adapter (one target, several consumers)
     readers = {}
     for c in comps:
@@ -212,7 +220,8 @@ def gen_dag(rng, cyclic=False, with_pull=True, shared_pull=False, late_start=Tru
 
 def has_cycle(case):
     n = len(case["comps"])
-    adj = {k: [i["src"][0] for i in case["comps"][k]["inputs"]] for k in range(n)}
+    adj = {k: [i["src"][0] for i in case["comps"][k]["inputs"] if i["src"][1] < case["comps"][i["src"][0]]["nout"]]
+           for k in range(n)}
     color = {}
 
     def dfs(u):
@@ -390,6 +399,10 @@ def distribution(cases, obss):
 # ----------------------------------------------------------------------------------------------
 # Python reference of the pull semantics, driven by the implementation's own trace (monitors)
 # ----------------------------------------------------------------------------------------------
+def is_static_src(comps, src):
+    return src[1] >= comps[src[0]]["nout"]
+
+
 class LinkTracker:
     """Tracks the DelayToPull request histories of every link from the observed "P" events and computes, by
     composing the adapters' documented time shifts in pull order, the time a link requires from its source."""
@@ -446,6 +459,8 @@ class LinkTracker:
         if depth > len(self.comps) + 1:
             return out
         for i, inp in enumerate(self.comps[c]["inputs"]):
+            if is_static_src(self.comps, inp["src"]):
+                continue
             r = self.required(c, i, t, times)
             if r is None:
                 continue
